@@ -19,6 +19,7 @@ import (
 	"verif/harness/internal/hutil"
 
 	"github.com/quasilyte/go-ruleguard/ruleguard"
+	"github.com/quasilyte/go-ruleguard/ruleguard/textmatch"
 )
 
 type engineObs struct {
@@ -119,6 +120,10 @@ func engineRules(rng *rand.Rand, npat int) (rules string, groups []egroup, pats 
 			cond = fmt.Sprintf("%sm[\"g\"].Text.Matches(%s)", bang, q)
 		case "cgroup-opt":
 			cond = fmt.Sprintf("%sm[\"opt\"].Text.Matches(%s)", bang, q)
+		case "ident":
+			cond = fmt.Sprintf("%sm[\"x\"].Text.Matches(%s)", bang, q)
+		case "cany":
+			cond = fmt.Sprintf("%sm[\"g\"].Text.Matches(%s)", bang, q)
 		}
 		switch pred {
 		case "list":
@@ -127,6 +132,9 @@ func engineRules(rng *rand.Rand, npat int) (rules string, groups []egroup, pats 
 		case "cgroup-g", "cgroup-opt":
 			// a comment group that captured the empty string (g) or did not participate at all (opt) has the empty text
 			fmt.Fprintf(&rb, "func g%d(m dsl.Matcher) {\n\tm.MatchComment(`cg%d:(?P<g>\\w*)(?P<opt>-opt)?`).Where(%s).Report(`hit`)\n}\n", gi, gi, cond)
+		case "cany":
+			// a comment group that captures the rest of the line: a text that may begin with any rune (spaces, digits of any script)
+			fmt.Fprintf(&rb, "func g%d(m dsl.Matcher) {\n\tm.MatchComment(`ca%d:(?P<g>.*)`).Where(%s).Report(`hit`)\n}\n", gi, gi, cond)
 		default:
 			fmt.Fprintf(&rb, "func g%d(m dsl.Matcher) {\n\tm.Match(`p%d($x)`).Where(%s).Report(`hit`)\n}\n", gi, gi, cond)
 		}
@@ -162,6 +170,20 @@ func engineRules(rng *rand.Rand, npat int) (rules string, groups []egroup, pats 
 			addGroup("text", neg, p)
 		}
 	}
+	// texts that begin with a letter of any case (identifiers) or with any rune at all (the rest of a comment line) against
+	// patterns that begin with a character class -- where the rune-predicate fast path is (and every spelling near it)
+	for _, p := range []string{`^\p{Lu}`, `^\p{Ll}`, `^\p{Lt}`, `^\p{L}`, `^\pL`, `^[[:upper:]]`, `^\w`, `^\d`, `^[A-Z]`, `^_`, `\p{Lu}`, `(?i)^\p{Lu}`, `^\P{Lu}`, `^\p{Lu}$`, `^\p{Greek}`} {
+		pats = append(pats, p)
+		for _, neg := range []bool{false, true} {
+			addGroup("ident", neg, p)
+		}
+	}
+	for _, p := range []string{`^\s`, `^\d`, `^\S`, `^\D`, `^\w`, `^\p{Nd}`, `^\p{N}`, `^\p{Zs}`, `^\pZ`, `^[[:space:]]`, `^[[:digit:]]`, `^\p{Lu}`, `^\p{Ll}`, `^\p{Lt}`, `^\p{L}`, `^$`, `\s`, `^.`} {
+		pats = append(pats, p)
+		for _, neg := range []bool{false, true} {
+			addGroup("cany", neg, p)
+		}
+	}
 	// the whole match ($$) as the text
 	for _, p := range []string{`^p\d+\("foo"\)$`, `foo`, `^"`, `\)$`, `^$`, `(?i)FOO`, `^p`} {
 		pats = append(pats, p)
@@ -184,11 +206,13 @@ func engineTarget(groups []egroup, variant int) (string, []esite) {
 	var tb strings.Builder
 	tb.WriteString("package target\n\n")
 	tb.WriteString("var x int\n\n")
+	idents := []string{"Upper", "lower", "Ünï", "ünï", "ǅx", "ǆx", "ǄX", "_x", "x1", "σ", "Σ", "X1", "ʰx", "ªx", "Ω_"}
+	tb.WriteString("var " + strings.Join(idents, ", ") + " string\n\n")
 	for gi, g := range groups {
 		switch g.pred {
 		case "list":
 			fmt.Fprintf(&tb, "func p%d(args ...interface{}) {}\n", gi)
-		case "cgroup-g", "cgroup-opt":
+		case "cgroup-g", "cgroup-opt", "cany":
 		default:
 			fmt.Fprintf(&tb, "func p%d(string) {}\n", gi)
 		}
@@ -215,6 +239,19 @@ func engineTarget(groups []egroup, variant int) (string, []esite) {
 				}
 				sites = append(sites, esite{group: gi, pos: pos, arg: want})
 				tb.WriteString(text + "\n")
+			}
+		case "cany":
+			for _, body := range rotSameLen([]string{"\u00a0x", "\vx", "٣ items", "３", " x", "\tx", "ǅ", "Upper", "lower", "1a", "", "\u2003", "\u0085x", "Ⅷ", "²"}, variant) {
+				tb.WriteString("\t// ")
+				pos := tb.Len()
+				sites = append(sites, esite{group: gi, pos: pos, arg: body})
+				fmt.Fprintf(&tb, "ca%d:%s\n", gi, body)
+			}
+		case "ident":
+			for _, a := range rotSameLen(idents, variant) {
+				tb.WriteString("\t")
+				sites = append(sites, esite{group: gi, pos: tb.Len(), arg: a})
+				fmt.Fprintf(&tb, "p%d(%s)\n", gi, a)
 			}
 		case "whole":
 			for _, a := range rotSameLen([]string{`"foo"`, `"FOO"`, `""`, "`a\nfoo`", "`foo\na`"}, variant) {
@@ -253,6 +290,21 @@ func engineLevel(enc *json.Encoder, tmp string, rng *rand.Rand, npat int) {
 	for _, p := range pats {
 		res[p] = regexp.MustCompile(p)
 	}
+	// which matcher Text.Matches gets for each pattern (the File() predicates are compiled by regexp directly)
+	kinds := map[string]int{}
+	for _, g := range groups {
+		if g.pred == "name" || g.pred == "pkgpath" {
+			continue
+		}
+		if tm, err := textmatch.Compile(g.pat); err == nil {
+			k, _, _ := textmatch.VerifDescribe(tm)
+			kinds[k]++
+		}
+	}
+	enc.Encode(struct {
+		K     string         `json:"k"`
+		Kinds map[string]int `json:"kinds"`
+	}{"engine-kinds", kinds})
 	e, err := hutil.LoadEngine(token.NewFileSet(), map[string]string{"rules.go": rules}, []string{"rules.go"})
 	if err != nil {
 		enc.Encode(engineObs{K: "engine", LoadErr: err.Error()})
